@@ -4,7 +4,9 @@
   `GMT+3` arm, `ignoretz` and the fuzzy modes (Model/Parser.lean), for ALL inputs.
 -/
 import DateutilVerif.Proofs.ParserTotal
+import DateutilVerif.Properties.C14
 import DateutilVerif.Proofs.ParserFuzzy
+import DateutilVerif.Proofs.ParserFuzzySyn
 import DateutilVerif.Proofs.Calendar
 import DateutilVerif.Proofs.Time
 
@@ -393,5 +395,28 @@ example : AtMostOneAmPm asciiCls (Info.default false false 2024 2000) "Sep 25 20
   unfold AtMostOneAmPm; decide +kernel
 example : ¬ AtMostOneAmPm asciiCls (Info.default false false 2024 2000) "10:30 am pm".toList := by
   unfold AtMostOneAmPm; decide +kernel
+
+/-- **the hypothesis as a condition on the text**: at most one token of the lexed text is an AM/PM word
+    (`am`, `pm`, `a`, `p` in any case for the stock parserinfo) ⇒ `AtMostOneAmPm`.  For a parserinfo subclass the
+    words `+` and `-` must not be AM/PM words (they are rewritten in place by the `GMT+3` arm). -/
+theorem atMostOneAmPm_of_count (cls : Char → CClass) (info : Info) (hinfo : info.WF)
+    (hplus : info.ampmOf ['+'] = none) (hminus : info.ampmOf ['-'] = none) (s : List Char)
+    (hc : ampmCount info (lex cls s) ≤ 1) : AtMostOneAmPm cls info s :=
+  singleMarkerRun_of_count cls info hinfo hplus hminus (lex cls s) hc
+
+/-- **strict ⊆ fuzzy for every text with at most one AM/PM word** (stock parserinfo): a hypothesis the user can
+    check by counting words.  Still `_partial`: texts with two or more AM/PM words are the known finding D-C15. -/
+theorem fuzzy_extends_strict_one_marker_partial (cls : Char → CClass) (df yf : Bool) (year century : Int) (o : Opts)
+    (tznames : List Token) (tzi : TzInfos) (dflt : DT) (s : List Char) (r : Result)
+    (hc : ampmCount (Info.default df yf year century) (lex cls s) ≤ 1)
+    (h : parse cls (Info.default df yf year century) { o with fuzzy := false, fuzzyWithTokens := false } tznames tzi dflt s = .ok r) :
+    parse cls (Info.default df yf year century) { o with fuzzy := true, fuzzyWithTokens := false } tznames tzi dflt s = .ok r :=
+  fuzzy_extends_strict_partial cls _ o tznames tzi dflt s r
+    (atMostOneAmPm_of_count cls _ (C14.default_info_wf df yf year century)
+      (by simp only [Info.ampmOf, Info.default]; decide) (by simp only [Info.ampmOf, Info.default]; decide) s hc) h
+
+/-- the count is 1 for an ordinary 12-hour text and 2 at the D-C15 witness -/
+example : ampmCount (Info.default false false 2024 2000) (lex asciiCls "Sep 25 2003 10:30 pm".toList) = 1 := by decide +kernel
+example : ampmCount (Info.default false false 2024 2000) (lex asciiCls "10:30 am pm".toList) = 2 := by decide +kernel
 
 end C15
